@@ -65,29 +65,25 @@ structure RunSt where
   known : List String := []
   recs : List Rec := []     -- reversed
 
-/-- threaded (Go-order) model: (state file, rejected batches, nondeterminism diagnostic) -/
-def runThreaded (t0 : Tree) (segs : List Seg) : Persisted × Nat × Bool :=
-  let r := segs.foldl (fun (s : (Tree × Agg) × Persisted × Nat) seg =>
+/-- threaded (Go-order) model: (state file, nondeterminism diagnostic) -/
+def runThreaded (t0 : Tree) (segs : List Seg) : Persisted × Bool :=
+  let r := segs.foldl (fun (s : (Tree × Agg) × Persisted) seg =>
     match seg with
     | Seg.batch rs =>
       if rs.isEmpty then s else
-      let (t, a, f) := stepT s.1.1 s.1.2 rs
-      if f then ((t, a), s.2.1, s.2.2 + 1) else ((t, a), persist a, s.2.2)
-    | Seg.restart => (({ t0 with nondet := s.1.1.nondet }, restore s.2.1), s.2.1, s.2.2))
-    ((t0, ({} : Agg)), persist {}, 0)
-  (r.2.1, r.2.2, r.1.1.nondet)
+      let (t, a) := stepT s.1.1 s.1.2 rs
+      ((t, a), persist a)
+    | Seg.restart => (({ t0 with nondet := s.1.1.nondet }, restore s.2), s.2))
+    ((t0, ({} : Agg)), persist {})
+  (r.2, r.1.1.nondet)
 
 /-- law instances L1/L3 on the URLs seen so far, for one step of the pure lineage -/
-def lookN (t : Tree) (u : String) : String := let (m, nu) := t.lookup u; if m then nu else u
-
 def lawCheck (t : Tree) (seen urls : List String) : List String :=
   let N := treeNormaliser
   let t' := N.learn t urls
-  let cv := N.conv t urls
-  let l1 := !cv || seen.all fun u => N.norm t' (lookN t u) == lookN t' u
-  let l3 := cv || seen.all fun u => lookN t' u == lookN t u
-  let le := urls.all fun u => N.norm t' u == lookN t' u
-  (if l1 then [] else ["L1"]) ++ (if l3 then [] else ["L3"]) ++ (if le then [] else ["LE"])
+  let l1 := seen.all fun u => N.norm t' (N.norm t u) == N.norm t' u
+  let l3 := N.conv t urls || seen.all fun u => N.norm t' u == N.norm t u
+  (if l1 then [] else ["L1"]) ++ (if l3 then [] else ["L3"])
 
 /-- pure model (`Model.C15.runSegs` with `treeNormaliser`) + law tests -/
 def runPure (t0 : Tree) (segs : List Seg) : Persisted × List String :=
@@ -95,7 +91,7 @@ def runPure (t0 : Tree) (segs : List Seg) : Persisted × List String :=
     match seg with
     | Seg.batch rs =>
       let urls := (external rs).map (·.url)
-      let bad := if rs.isEmpty || treeNormaliser.fails s.1.tree urls then [] else lawCheck s.1.tree s.2.1 urls
+      let bad := if rs.isEmpty then [] else lawCheck s.1.tree s.2.1 urls
       (stepS treeNormaliser s.1 rs, s.2.1 ++ urls, s.2.2 ++ bad)
     | Seg.restart => ({ tree := t0, agg := restore s.1.file, file := s.1.file }, [], s.2.2)) (St.init t0, [], [])
   -- L2 (observational): the lineage tree and the one-shot tree normalise every seen URL alike
@@ -103,7 +99,7 @@ def runPure (t0 : Tree) (segs : List Seg) : Persisted × List String :=
     | [] => true
     | seen => if segs.any (fun s => match s with | Seg.restart => true | _ => false) then true
               else let one := treeNormaliser.learn t0 seen
-                   seen.all fun u => lookN one u == lookN r.1.tree u
+                   seen.all fun u => treeNormaliser.norm one u == treeNormaliser.norm r.1.tree u
   (r.1.file, r.2.2 ++ (if l2 then [] else ["L2"]))
 
 def runStep (s : RunSt) (line : String) : RunSt × String :=
@@ -130,13 +126,14 @@ def runStep (s : RunSt) (line : String) : RunSt × String :=
         let recs := s.recs.reverse
         let segs := segsOf recs cuts restarts
         let full := restarts.isEmpty
-        let (file, fails, nondet) := runThreaded t0 segs
+        let (file, nondet) := runThreaded t0 segs
         let (filep, laws) := runPure t0 segs
-        let main := fmtObs full fails file ""
-        let pure := fmtObs full fails filep ""
+        -- `Run` has no error path left in the model (a refused URL is skipped): fail=0
+        let main := fmtObs full 0 file ""
+        let pure := fmtObs full 0 filep ""
         -- the law / purity diagnostics are part of the answer only OUTSIDE the class where the laws are known
         -- to fail on the real tree (finding F15c); there the harness never prints them, so they show as a diff
-        let inClass := false
+        let inClass := deepFanout s.thr (s.known ++ (external recs).map (·.url))
         let tail := if inClass then "" else (if main == pure then "" else " PURE-DIFF") ++
           (if laws.isEmpty then "" else " LAW-FAIL:" ++ ",".intercalate (dedupS laws))
         -- with restarts only the per-method totals are reported; those never depend on map order
